@@ -298,6 +298,41 @@ def r18_6_rejection(repo: Repo, rep: Report):
     rep.check("R18.6", ok, m, tp, "ParseTimeout.parse -> parse_time(values, default_unit='ms')", "timeouts without a unit must be milliseconds")
 
 
+def r18_8_parser_defaults_and_scoping(repo: Repo, rep: Report):
+    rep.rule("R18.8", "an option that was not given stays None in the parsed namespace; a contract's annotation is its own; the toml generator keeps explicit falsy values")
+    m, cap = repo.fn("config._create_arg_parser")
+    adds = [c for c in body_walk(cap) if isinstance(c, ast.Call) and last_attr(c) == "add_argument"]
+    for c in adds:
+        d = kwarg(c, "default")
+        ok = d is None or (isinstance(d, ast.Constant) and d.value is None)
+        rep.check("R18.8", ok, m, c, f"add_argument(... default={src(d) if d is not None else '<absent>'})", "an argparse default other than None makes every parsed layer (command line, natspec, devdoc) `set` the option although it was not given: a value from a lower-precedence layer (config file) is masked")
+    # kwargs dicts handed to add_argument(**kwargs) must not carry a default either
+    for d in [n for n in body_walk(cap) if isinstance(n, ast.Dict)]:
+        keys = [k.value for k in d.keys if isinstance(k, ast.Constant)]
+        rep.check("R18.8", "default" not in keys, m, d, f"add_argument kwargs keys: {keys}", "argparse default supplied through the kwargs dictionary")
+    for st in body_walk(cap):
+        if isinstance(st, ast.Assign) and isinstance(st.targets[0], ast.Subscript) and src(st.targets[0].value) == "kwargs" and isinstance(st.targets[0].slice, ast.Constant) and st.targets[0].slice.value == "default":
+            rep.bad("R18.8", m, st, src(st), "argparse default supplied through the kwargs dictionary")
+    rep.floor("R18.8", 3, "add_argument sites in _create_arg_parser")
+    # contract annotation scoping: the natspec returned for a contract comes from that contract's AST node
+    mb, gct = repo.fn("build.get_contract_type")
+    docs = [c for c in body_walk(gct) if isinstance(c, ast.Call) and last_attr(c) == "get" and c.args and isinstance(c.args[0], ast.Constant) and c.args[0].value == "documentation"]
+    for c in docs:
+        gs = {g.replace(" ", "") for g in guard_set(mb, c)}
+        ok = any(g in ("node['name']==contract_name", "contract_name==node['name']") for g in gs) and len(c.args) == 1
+        rep.check("R18.8", ok, mb, c, f"get_contract_type: {src(c)} under {sorted(gs)}", "the documentation (and with it the @custom:halmos options) of another contract of the same file is returned: a contract without annotation inherits its neighbour's options as a contract_annotation layer")
+    rep.check("R18.8", len(docs) == 1, mb, gct, f"get_contract_type reads `documentation` at {len(docs)} site(s)", "annotation source changed")
+    # python -m halmos.config: only an unset value (None) becomes a commented placeholder
+    mc, mn = repo.fn("config.main")
+    placeholder = [i for i in body_walk(mn) if isinstance(i, ast.If) and any("# {name} = " in src(x) for x in i.body)]
+    ok = False
+    if len(placeholder) == 1:
+        t = placeholder[0].test
+        first = t.values[0] if isinstance(t, ast.BoolOp) and isinstance(t.op, ast.Or) else t
+        ok = src(first) == "value is None"
+    rep.check("R18.8", ok, mc, placeholder[0] if placeholder else mn, f"config.main: placeholder iff `{src(placeholder[0].test)[:80] if placeholder else '?'}`", "a truthiness test drops explicit falsy values (--loop 0, --invariant-depth 0, empty lists) from the generated halmos.toml: reloading it silently restores the defaults (unparse/parse round trip broken)")
+
+
 def _forwarded_values_ok(repo: Repo, m, fn, expr, depth=0):
     """(ok, description): does `expr` (the ** argument of with_overrides) forward every parsed option unfiltered, or
     filtered only by `is not None`?"""
@@ -341,4 +376,4 @@ def r18_7_override_forwarding(repo: Repo, rep: Report):
     rep.floor("R18.7", 3, "with_overrides(**...) call sites")
 
 
-RULES = [r18_1_source_order, r18_2_lookup, r18_3_layer_sources, r18_4_scoping, r18_5_inverse_pairs, r18_6_rejection, r18_7_override_forwarding]
+RULES = [r18_1_source_order, r18_2_lookup, r18_3_layer_sources, r18_4_scoping, r18_5_inverse_pairs, r18_6_rejection, r18_7_override_forwarding, r18_8_parser_defaults_and_scoping]
